@@ -319,6 +319,12 @@ package smtp
 //@ contract parseArgs(s) (argMap, err)
 //@   prop C11 C19
 //@   fresh argMap if err == nil
+//@   ensures @C11 a-parameter-has-at-most-one-equals-sign: err == nil ==> (forall i :: 0 <= i && i < nfields(s) ==> splitLen(fieldAt(s, i), "=", -1) <= 2)
+//@   ensures @C11 every-parameter-is-recorded-under-its-upper-cased-keyword: err == nil ==> (forall i :: 0 <= i && i < nfields(s) ==> has(argMap, upperOf(splitAt(fieldAt(s, i), "=", -1, 0))))
+//@   loop 1:
+//@     invariant argMap != nil && !wasalloc(argMap) && rangeindex < nfields(s)
+//@     invariant len(resultof("strings.Fields", 1, 1)) == nfields(s) && (forall i :: 0 <= i && i < nfields(s) ==> resultof("strings.Fields", 1, 1)[i] == fieldAt(s, i))
+//@     invariant @C11 forall i :: 0 <= i && i <= rangeindex ==> splitLen(fieldAt(s, i), "=", -1) <= 2 && has(argMap, upperOf(splitAt(fieldAt(s, i), "=", -1, 0)))
 
 // ---------------------------------------------------------------------------------------
 // STARTTLS, AUTH, command dispatch
@@ -369,22 +375,31 @@ package smtp
 
 //@ contract (*Conn).createStatusCollector(c) (status)
 //@   prop C13
-//@   nooverflow per-recipient counters are bounded by the number of recipients (not proved)
 //@   requires c != nil
 //@   fresh status
 //@   ensures one-slot-per-recipient: status != nil && status.statusMap != nil && len(status.status) == len(c.recipients)
 //@   ensures every-recipient-has-a-channel: forall i :: 0 <= i && i < len(c.recipients) ==> has(status.statusMap, c.recipients[i]) && status.statusMap[c.recipients[i]] != nil
+//@   ensures @C13 slot-i-is-the-channel-of-recipient-i: forall i :: 0 <= i && i < len(c.recipients) ==> status.status[i] == status.statusMap[c.recipients[i]]
+//@   ensures @C13 channels-are-new-and-empty: forall a: string :: has(status.statusMap, a) ==> status.statusMap[a] != nil && !wasalloc(status.statusMap[a]) && len(status.statusMap[a]) == 0 && cap(status.statusMap[a]) >= 1
+//@   ensures @C13 different-recipients-have-different-channels: forall a: string :: forall b: string :: has(status.statusMap, a) && has(status.statusMap, b) && a != b ==> status.statusMap[a] != status.statusMap[b]
 //@   loop 1:
 //@     invariant rcptCounts != nil && status != nil && !wasalloc(status) && !wasalloc(rcptCounts) && status.statusMap != nil && !wasalloc(status.statusMap) && status.statusMap != rcptCounts
 //@     invariant len(status.status) == 0 && cap(status.status) == len(c.recipients) && !wasalloc(status.status)
 //@     invariant forall j :: 0 <= j && j <= rangeindex ==> has(rcptCounts, c.recipients[j])
-//@     invariant rangeindex < len(c.recipients) && (forall a: string :: has(rcptCounts, a) ==> rcptCounts[a] <= rangeindex + 1)
+//@     invariant rangeindex < len(c.recipients) && (forall a: string :: has(rcptCounts, a) ==> 1 <= rcptCounts[a] && rcptCounts[a] <= rangeindex + 1)
+//@     invariant forall a: string :: !has(status.statusMap, a)
 //@   loop 2:
 //@     invariant rcptCounts != nil && status != nil && !wasalloc(status) && !wasalloc(rcptCounts) && status.statusMap != nil && !wasalloc(status.statusMap) && status.statusMap != rcptCounts
 //@     invariant len(status.status) == 0 && cap(status.status) == len(c.recipients) && !wasalloc(status.status)
 //@     invariant forall j :: 0 <= j && j < len(c.recipients) ==> has(rcptCounts, c.recipients[j])
 //@     invariant forall a: string :: itvisited(a) ==> has(status.statusMap, a) && status.statusMap[a] != nil
+//@     invariant forall a: string :: has(status.statusMap, a) ==> itvisited(a) && status.statusMap[a] != nil && !wasalloc(status.statusMap[a]) && alloc(status.statusMap[a]) && len(status.statusMap[a]) == 0 && cap(status.statusMap[a]) >= 1
+//@     invariant forall a: string :: forall b: string :: has(status.statusMap, a) && has(status.statusMap, b) && a != b ==> status.statusMap[a] != status.statusMap[b]
+//@     invariant forall a: string :: has(rcptCounts, a) ==> rcptCounts[a] >= 1
 //@   loop 3:
+//@     invariant forall a: string :: has(status.statusMap, a) ==> status.statusMap[a] != nil && !wasalloc(status.statusMap[a]) && len(status.statusMap[a]) == 0 && cap(status.statusMap[a]) >= 1
+//@     invariant forall a: string :: forall b: string :: has(status.statusMap, a) && has(status.statusMap, b) && a != b ==> status.statusMap[a] != status.statusMap[b]
+//@     invariant forall j :: 0 <= j && j <= rangeindex ==> status.status[j] == status.statusMap[c.recipients[j]]
 //@     invariant status != nil && !wasalloc(status) && status.statusMap != nil && !wasalloc(status.status)
 //@     invariant forall j :: 0 <= j && j < len(c.recipients) ==> has(status.statusMap, c.recipients[j]) && status.statusMap[c.recipients[j]] != nil
 //@     invariant len(status.status) == rangeindex + 1 && rangeindex < len(c.recipients)
@@ -458,6 +473,7 @@ package smtp
 //@   ensures @C03 out-of-order-refused: !old(c.fromReceived) || len(old(c.recipients)) == 0 ==> c.lastCode >= 500 && c.bdatPipe == nil && c.cbData == old(c.cbData)
 //@   ensures @C03 failed-chunk-ends-transaction: c.lastCode != 250 && old(c.fromReceived) && len(old(c.recipients)) > 0 && bdatDeclaredOK(arg) && !c.closed ==> !c.fromReceived && len(c.recipients) == 0 && c.bdatPipe == nil
 //@   ensures @C07 old-pipe-not-left-open: old(c.bdatPipe) != nil && c.bdatPipe != old(c.bdatPipe) ==> old(c.bdatPipe).state != 0
+//@   ensures @C03,C05 an-open-transfer-is-continued-not-restarted: old(c.bdatPipe) != nil ==> c.bdatPipe == old(c.bdatPipe) || c.bdatPipe == nil
 //@   ensures @C06 accumulated-size-within-limit: c.server.MaxMessageBytes > 0 ==> c.bytesReceived <= c.server.MaxMessageBytes
 //@   ensures text-kept: c.text == old(c.text) && c.text.R == old(c.text.R)
 //@   loop 1:
@@ -554,6 +570,7 @@ package smtp
 //@   prop C15
 //@   requires c != nil && c.conn != nil && c.text != nil
 //@   requires @C15 command-is-one-line: noCRLF(fmtline(format, args))
+//@   requires @C15,C16 a-prebuilt-line-is-not-used-as-a-format: len(args) == 0 ==> noPercent(format)
 //@   modifies c.text.cmds, c.text.Reader.resps
 //@   ensures @C15 one-line-written: c.text.cmds == old(c.text.cmds) + 1
 //@   ensures @C09,C16 reply-read-for-every-line-written: c.text.Reader.resps == old(c.text.Reader.resps) + 1 || (err != nil && c.text.Reader.resps == old(c.text.Reader.resps))
@@ -659,7 +676,7 @@ package smtp
 // ---------------------------------------------------------------------------------------
 
 //@ contract (*Client).Mail(c, from, opts) (err)
-//@   prop C14 C15 C18 C10
+//@   prop C14 C15 C16 C18 C10
 //@   requires clientWF(c)
 //@   modifies c.didGreet, c.greetError, c.didHello, c.helloError, c.ext, c.text.cmds, c.text.Reader.resps
 //@   before (*strings.Builder).WriteString: @C15 only-negotiated-parameters: ($1 == " BODY=8BITMIME" ==> has(c.ext, "8BITMIME")) && ($1 == " REQUIRETLS" ==> has(c.ext, "REQUIRETLS")) && ($1 == " SMTPUTF8" ==> has(c.ext, "SMTPUTF8"))
@@ -672,7 +689,7 @@ package smtp
 //@   ensures @C15 smtputf8-not-silently-dropped: opts != nil && opts.UTF8 && !has(c.ext, "SMTPUTF8") ==> err != nil && c.text.cmds <= old(c.text.cmds) + 2
 
 //@ contract (*Client).Rcpt(c, to, opts) (err)
-//@   prop C14 C15 C18
+//@   prop C14 C15 C16 C18
 //@   requires clientWF(c)
 //@   modifies c.rcpts, c.rcpts[**], c.text.cmds, c.text.Reader.resps
 //@   before (*strings.Builder).WriteString: @C15 only-negotiated-parameters: ($1 == " NOTIFY=" ==> has(c.ext, "DSN"))
@@ -829,11 +846,15 @@ package smtp
 //@   requires s != nil && s.done != nil
 //@   requires forall x: *Conn :: has(s.conns, x) ==> x != nil && x.conn != nil && sessOK(x)
 //@   requires forall i :: 0 <= i && i < len(s.listeners) ==> s.listeners[i] != nil
-//@   modifies *chan, *.Conn.bdatPipe, *.Conn.session, *.Conn.closed, *.Conn.cbLogout, *.io.PipeWriter.state, *.Session.loggedOut
+//@   modifies *chan, *.Conn.bdatPipe, *.Conn.session, *.Conn.closed, *.Conn.cbLogout, *.io.PipeWriter.state, *.Session.loggedOut, *.net.Listener.lclosed
 //@   ensures @C20 closing-again-reports-already-closed: old(chclosed(s.done)) ==> err == ErrServerClosed && chclosed(s.done)
 //@   ensures @C20 first-close-marks-the-server-closed: !old(chclosed(s.done)) && old(len(s.done)) == 0 ==> chclosed(s.done)
 //@   ensures @C20 first-close-closes-every-registered-connection: !old(chclosed(s.done)) && old(len(s.done)) == 0 ==> (forall x: *Conn :: has(s.conns, x) ==> x.closed)
+//@   ensures @C20 first-close-closes-every-listener-whatever-the-others-return: !old(chclosed(s.done)) && old(len(s.done)) == 0 ==> (forall i :: 0 <= i && i < len(s.listeners) ==> s.listeners[i].lclosed)
+//@   loop 1:
+//@     invariant @C20 forall j :: 0 <= j && j <= rangeindex ==> s.listeners[j].lclosed
 //@   loop 2:
+//@     invariant @C20 every-listener-has-been-closed: forall j :: 0 <= j && j < len(s.listeners) ==> s.listeners[j].lclosed
 //@     invariant forall x: *Conn :: has(s.conns, x) && !itvisited(x) ==> x != nil && x.conn != nil && sessOK(x)
 //@     invariant @C20 every-registered-connection-is-closed: forall x: *Conn :: itvisited(x) ==> x.closed
 
@@ -841,6 +862,9 @@ package smtp
 //@   prop C20
 //@   requires s != nil && s.done != nil && ctx != nil
 //@   requires forall i :: 0 <= i && i < len(s.listeners) ==> s.listeners[i] != nil
-//@   modifies *chan
+//@   modifies *chan, *.net.Listener.lclosed
 //@   ensures @C20 shutting-down-again-reports-already-closed: old(chclosed(s.done)) ==> err == ErrServerClosed && chclosed(s.done)
 //@   ensures @C20 first-shutdown-marks-the-server-closed: !old(chclosed(s.done)) && old(len(s.done)) == 0 ==> chclosed(s.done)
+//@   ensures @C20 first-shutdown-closes-every-listener-whatever-the-others-return: !old(chclosed(s.done)) && old(len(s.done)) == 0 ==> (forall i :: 0 <= i && i < len(s.listeners) ==> s.listeners[i].lclosed)
+//@   loop 1:
+//@     invariant @C20 forall j :: 0 <= j && j <= rangeindex ==> s.listeners[j].lclosed
